@@ -32,6 +32,8 @@ func c10Cases(c *core.Ctx) []VCase {
 		nStress = 20000
 	}
 	cases = append(cases, OverlapStress(c.Rng, nStress)...)
+	// several errors of one rule in one document (several names defined twice, several unknown names ...)
+	cases = append(cases, DupStress(c.Rng, nStress)...)
 	// equidistant suggestion candidates: type names Aab, Aac, Aad, ...; field names likewise
 	sdl := "type Query { aab: Int aac: Int aad: Int x(e: Eq): Int t: Aab } type Aab { a: Int } type Aac { a: Int } type Aad { a: Int } type Abb { a: Int } enum Eq { QA QB QC QD }"
 	for _, q := range []string{
